@@ -14,7 +14,7 @@ CYCLES = {'selfloop': {'a': 'd', 'a/b': 'd', 'a/b/up': ('l', '../..'), 'a/b/f': 
 
 
 def run(chk, tier, seed):
-    specs = {'links': trees.LINKS, 'deep2': trees.DEEP2, 'acyclic': trees.ACYCLIC}
+    specs = {'links': trees.LINKS, 'deep2': trees.DEEP2, 'acyclic': trees.ACYCLIC, 'relink': trees.RELINK}
     specs.update(CYCLES)
     rnd = random.Random(seed * 7 + 3)
     for i in range(2 if tier == 'quick' else 30):
@@ -41,7 +41,7 @@ def run(chk, tier, seed):
     # globmatch(REALPATH) applies the same symlink rule to the path it is given (compared with glob on the link trees)
     from vlib.spec import pat as P
     star_pats = [p for p in globrun.small_patterns() if '**' in P.render(p)]
-    items2 = [(tn, specs[tn], [(p, f, None) for f in (G.G, G.G | G.D, G.GL | G.E, G.G | G.L, G.GL | G.X) for p in star_pats]) for tn in ('links', 'deep2', 'acyclic')]
+    items2 = [(tn, specs[tn], [(p, f, None) for f in (G.G, G.G | G.D, G.GL | G.E, G.G | G.L, G.GL | G.X) for p in star_pats]) for tn in ('links', 'deep2', 'acyclic', 'relink')]
     for res in pmap(globrun.globmatch_vs_glob, items2, chunk=1):
         for r in res:
             if r['kind'] == 'error':
